@@ -15,6 +15,7 @@ import (
 	"encoding/json"
 	"fmt"
 	"os"
+	"runtime"
 	"sort"
 	"strconv"
 	"strings"
@@ -134,7 +135,10 @@ func main() {
 	if err != nil {
 		exe = os.Args[0]
 	}
-	workers := 8
+	workers := runtime.NumCPU()
+	if workers > 16 {
+		workers = 16
+	}
 	if w := os.Getenv("VERIF_WORKERS"); w != "" {
 		if v, err := strconv.Atoi(w); err == nil && v > 0 {
 			workers = v
